@@ -57,6 +57,20 @@ def run(ctx):
         if "SPEC-DIFFERS" in mo or mo == "bad-op":
             ctx.report("model driver: scan and specification differ / bad op (harness-model protocol bug)", {"line": i + 1, "op": ops_l[i], "model": mo})
             break
+    # generator quality: which rule decided (diagnostic second pass of the model driver)
+    import subprocess, re
+    binp_drv = os.path.join(os.path.dirname(os.path.dirname(os.path.abspath(__file__))), "lean", ".lake", "build", "bin", "c01drv")
+    diag = subprocess.run([binp_drv, "--diag"], stdin=open(ops), stdout=subprocess.PIPE).stdout.decode().split("\n")
+    hits = collections.Counter()
+    for l in diag:
+        m = re.search(r"hit=(\w+)/(\d+)", l)
+        if m:
+            if m.group(1) == "fb":
+                hits["fallback" if m.group(2) != "0" else "fallback(empty program)"] += 1
+            else:
+                i = int(m.group(1))
+                hits["rule#0" if i == 0 else "rule#1-3" if i <= 3 else "rule#4-9" if i <= 9 else "rule#10+"] += 1
+    ctx.cov["decided_by"] = dict(hits)
     pk = [(o, m) for o, m in zip(ops_l, impl_l) if o.startswith("pkt ")]
     hist = collections.Counter(m for _, m in pk)
     stats = json.load(open(os.path.join(ctx.out, "c01.stats.json")))
